@@ -10,6 +10,7 @@ import (
 	"path/filepath"
 	"strconv"
 	"strings"
+	"sync"
 
 	"github.com/XiXi-2024/xixi-kv/datafile"
 	"github.com/XiXi-2024/xixi-kv/fio"
@@ -43,13 +44,13 @@ type FileRunner struct {
 	Verbose bool
 	poss    [][2]uint32 // positions returned by writes so far
 	// property oracle (C11): what was written, to be compared with what is read back
-	written []writtenRec
-	staged  []writtenRec
-	damaged bool
+	written    []writtenRec
+	staged     []writtenRec
+	damaged    bool
 	transplant string // set by copyblock: the damage is a whole block replaced by another block of the same file
-	saved   []byte
-	Oracle  []string
-	lastLog int64
+	saved      []byte
+	Oracle     []string
+	lastLog    int64
 	// far mode (C11): the file begins with `base` blocks of nothing (a sparse region), so that everything
 	// appended lies beyond 4 GiB; block ids and sizes are reported relative to the base, which makes the
 	// script comparable with the model run at offset 0
@@ -396,6 +397,69 @@ func (r *FileRunner) Exec(f []string) (res string) {
 			return "err " + ErrName(err)
 		}
 		return fmt.Sprintf("%d", r.df.Size())
+	case "twofiles": // F twofiles <n> <seed>: two goroutines append n records each to two OTHER data files at the same time
+		n, seed := atoi(f[2]), atou(f[3])
+		type wrec struct {
+			k, v     []byte
+			bid, off uint32
+		}
+		var files [2]*datafile.DataFile
+		var wrote [2][]wrec
+		var errs [2]error
+		for i := range files {
+			id := r.fid + 1000 + uint32(i)
+			_ = os.Remove(datafile.GetFileName(r.Dir, id, datafile.DataFileSuffix))
+			df, err := datafile.OpenFile(r.Dir, id, datafile.DataFileSuffix, fio.StandardFIO) // standard I/O: unmapping two 512 MiB mappings per scenario costs seconds
+			if err != nil {
+				return "err open"
+			}
+			files[i] = df
+		}
+		var wg sync.WaitGroup
+		for i := range files {
+			wg.Add(1)
+			go func(i int) {
+				defer wg.Done()
+				x := seed*2 + uint64(i) + 1
+				hdr := make([]byte, datafile.MaxLogRecordHeaderSize)
+				for j := 0; j < n; j++ {
+					x = x*6364136223846793005 + 1442695040888963407
+					vl := int((x >> 33) % 3000)
+					if j%7 == 3 {
+						vl += 33000 // a record of two chunks
+					}
+					k := []byte(fmt.Sprintf("k%d-%d", i, j))
+					v := GenBytes(vl, x&0xffff)
+					p, err := files[i].WriteLogRecord(&datafile.LogRecord{Key: k, Value: v}, hdr)
+					if err != nil {
+						errs[i] = err
+						return
+					}
+					wrote[i] = append(wrote[i], wrec{k, v, p.BlockID, p.Offset})
+				}
+			}(i)
+		}
+		wg.Wait()
+		for i, df := range files {
+			if errs[i] != nil {
+				r.fail("concurrent appends to two different data files: a write to file %d failed: %v", i, errs[i])
+			}
+			rd := df.NewReader()
+			for j, w := range wrote[i] {
+				rec, p, err := rd.NextLogRecord()
+				if err != nil {
+					r.fail("concurrent appends to two different data files: record %d of file %d cannot be read back: %v", j, i, err)
+					break
+				}
+				if !bytes.Equal(rec.Key, w.k) || !bytes.Equal(rec.Value, w.v) || p.BlockID != w.bid || p.Offset != w.off {
+					r.fail("concurrent appends to two different data files: record %d of file %d reads back differently from what was written", j, i)
+					break
+				}
+			}
+			_ = df.Close()
+			_ = os.Remove(datafile.GetFileName(r.Dir, r.fid+1000+uint32(i), datafile.DataFileSuffix))
+		}
+		return "ok"
 	case "copyblock": // F copyblock <src> <dst>: block <dst> of the file is overwritten by a copy of block <src> (both whole blocks)
 		r.damaged = true
 		src, dst := atoi(f[2]), atoi(f[3])
